@@ -11,8 +11,11 @@ import genrun
 def check(rep):
     coq = fw.coq_check("C07", ["SrcBond"])
     quick = rep.tier == "quick"
+    import gen_inputs as gi
+    # natural draws of wide Gaussians: negative first draws happen by themselves (one draw per object, growth obeys THAT draw)
+    wide = [(a + ":gauss_wide", t, s) for a, t, s in gi.cases(rep.seed + 77, 60 if quick else 2000, archetypes=["homopolymer", "random_copolymer", "end_initiated", "block_copolymer"], family="gauss_wide")]
     cases, stats = genrun.collect(rep, 200 if quick else 8000, 8 if quick else 200, forced_kinds=(None, "below", "negative", "units", "units", "huge"),
-                                  max_leaves=100 if quick else 1500, budget_s=120 if quick else 1500)
+                                  max_leaves=100 if quick else 1500, budget_s=120 if quick else 1500, extra_natural=wide)
     mols = 0
     skipped = 0
     distinct = set()
